@@ -54,6 +54,18 @@ func c11Lines(s string) []string { return strings.SplitAfter(s, "\n") }
 func c11Mutate(rt *rapid.T, body string, k int, donor func() string) (string, string) {
 	lbl := func(s string) string { return fmt.Sprintf("%s%d", s, k) }
 	toks := c11Tokens(body)
+	// Mutations stay behind the package clause (a broken clause is rejected by
+	// the message validation before anything interesting runs) - except rarely.
+	lo, loLine := 0, 1
+	if rapid.IntRange(0, 19).Draw(rt, lbl("anywhere")) != 0 {
+		for i, t := range toks {
+			if t.Tok == token.PACKAGE && i+1 < len(toks) {
+				lo = toks[i+1].End
+				loLine = strings.Count(body[:lo], "\n") + 1
+				break
+			}
+		}
+	}
 	kind := rapid.SampledFrom([]string{
 		"tokrep", "tokrep", "tokrep", "lit", "lit", "lit", "op", "op", "op", "ident", "ident",
 		"tokdel", "tokins", "tokins", "tokswap", "linedel", "linedup", "lineswap", "splice", "splice",
@@ -62,7 +74,7 @@ func c11Mutate(rt *rapid.T, body string, k int, donor func() string) (string, st
 	pickTok := func(pred func(c11Tok) bool, l string) int {
 		var idx []int
 		for i, t := range toks {
-			if t.Tok != token.COMMENT && (pred == nil || pred(t)) {
+			if t.Tok != token.COMMENT && t.Off >= lo && (pred == nil || pred(t)) {
 				idx = append(idx, i)
 			}
 		}
@@ -163,10 +175,10 @@ func c11Mutate(rt *rapid.T, body string, k int, donor func() string) (string, st
 		return body[:a.Off] + body[b.Off:b.End] + body[a.End:b.Off] + body[a.Off:a.End] + body[b.End:], fmt.Sprintf("tokswap@%d,%d", a.Off, b.Off)
 	case "linedel", "linedup", "lineswap":
 		ls := c11Lines(body)
-		if len(ls) < 3 {
+		if len(ls) < 3 || loLine >= len(ls)-1 {
 			break
 		}
-		i := rapid.IntRange(1, len(ls)-1).Draw(rt, lbl("l"))
+		i := rapid.IntRange(loLine, len(ls)-1).Draw(rt, lbl("l"))
 		switch kind {
 		case "linedel":
 			ls = append(ls[:i:i], ls[i+1:]...)
@@ -178,14 +190,14 @@ func c11Mutate(rt *rapid.T, body string, k int, donor func() string) (string, st
 			}
 			ls = append(ls[:i:i], append(dup, ls[i:]...)...)
 		case "lineswap":
-			j := rapid.IntRange(1, len(ls)-1).Draw(rt, lbl("j"))
+			j := rapid.IntRange(loLine, len(ls)-1).Draw(rt, lbl("j"))
 			ls[i], ls[j] = ls[j], ls[i]
 		}
 		return strings.Join(ls, ""), fmt.Sprintf("%s@%d", kind, i)
 	case "splice":
 		d := c11Lines(donor())
 		ls := c11Lines(body)
-		if len(d) < 3 || len(ls) < 2 {
+		if len(d) < 3 || len(ls) < 2 || loLine > len(ls)-1 {
 			break
 		}
 		a := rapid.IntRange(1, len(d)-1).Draw(rt, lbl("a"))
@@ -193,31 +205,31 @@ func c11Mutate(rt *rapid.T, body string, k int, donor func() string) (string, st
 		if a+n > len(d) {
 			n = len(d) - a
 		}
-		at := rapid.IntRange(1, len(ls)-1).Draw(rt, lbl("at"))
+		at := rapid.IntRange(loLine, len(ls)-1).Draw(rt, lbl("at"))
 		out := append(append(append([]string{}, ls[:at]...), d[a:a+n]...), ls[at:]...)
 		return strings.Join(out, ""), fmt.Sprintf("splice@%d +%d lines", at, n)
 	case "byte":
-		if len(body) == 0 {
+		if len(body) == 0 || lo > len(body)-1 {
 			break
 		}
-		p := rapid.IntRange(0, len(body)-1).Draw(rt, lbl("p"))
+		p := rapid.IntRange(lo, len(body)-1).Draw(rt, lbl("p"))
 		b := byte(rapid.SampledFrom([]int{0, '\n', ' ', '{', '}', '(', ')', '"', '`', '\'', '\\', '/', '*', '0', '9', 'a', 0x80, 0xff, ';', '.', '-'}).Draw(rt, lbl("b")))
 		return body[:p] + string([]byte{b}) + body[p+1:], fmt.Sprintf("byte@%d=%#x", p, b)
 	case "bytedel":
-		if len(body) < 2 {
+		if len(body) < 2 || lo > len(body)-2 {
 			break
 		}
-		p := rapid.IntRange(0, len(body)-2).Draw(rt, lbl("p"))
+		p := rapid.IntRange(lo, len(body)-2).Draw(rt, lbl("p"))
 		n := rapid.IntRange(1, 40).Draw(rt, lbl("n"))
 		if p+n > len(body) {
 			n = len(body) - p
 		}
 		return body[:p] + body[p+n:], fmt.Sprintf("bytedel@%d+%d", p, n)
 	case "bytedup":
-		if len(body) < 2 {
+		if len(body) < 2 || lo > len(body)-2 {
 			break
 		}
-		p := rapid.IntRange(0, len(body)-2).Draw(rt, lbl("p"))
+		p := rapid.IntRange(lo, len(body)-2).Draw(rt, lbl("p"))
 		n := rapid.IntRange(1, 60).Draw(rt, lbl("n"))
 		if p+n > len(body) {
 			n = len(body) - p
